@@ -306,7 +306,8 @@ class Recorder:
                         arrs.append((a, cast))
                         if present and not any(a is x for x in arrays):
                             arrays.append(a)
-                    recd = {'oid': self.oids.get(id(fr), 0), 'chans': chans, 'rows': [], 'has_rows': False, 'index': {'ok': False, 'vals': []}}
+                    recd = {'oid': self.oids.get(id(fr), 0), 'chans': chans, 'rows': [], 'has_rows': False,
+                            'index': {'ok': False, 'vals': [], 'wide': {'ok': False, 'min': [], 'max': [], 'dimg': [], 'dsign': []}}}
                     ok = all(c['present'] and c['code'] and 1 <= c['ndim'] <= 2 for c in chans) and len({c['rows'] for c in chans}) == 1
                     if ok:
                         n = chans[0]['rows']
@@ -318,7 +319,8 @@ class Recorder:
                             if a0.ndim == 1:
                                 vals = [h['small_int'](a0[i] if cast0 is None else a0[i].astype(cast0)) for i in range(frm, t)]
                                 if all(v[0] for v in vals):
-                                    recd['index'] = {'ok': True, 'vals': [slimbs(v[1]) for v in vals]}
+                                    recd['index'] = {'ok': True, 'vals': [slimbs(v[1]) for v in vals],
+                                                     'wide': {'ok': False, 'min': [], 'max': [], 'dimg': [], 'dsign': []}}
                     frames.append(recd)
             if h5 is not None:
                 h5.close()
